@@ -131,8 +131,16 @@ func (c01) Gen(r *kern.Rng, tier string, idx int) *Trace {
 		// encoder's output-buffer roll-over
 		sc := &scen.WScen{Pkg: "flate", Guard: true, Ctor: r.PickS("new", "new", "4k")}
 		sc.Level = r.Pick(-2, -2, -2, 1, 2, -1)
-		sc.Data = scen.DataSpec{Kind: r.PickS("rand", "rand", "text", "alpha", "fib", "logcopies"), Seed: r.Uint64(), P1: r.Pick(3, 16, 24, 200)}
+		sc.Data = scen.DataSpec{Kind: r.PickS("rand", "rand", "text", "alpha", "fib", "logcopies", "geo"), Seed: r.Uint64(), P1: r.Pick(3, 16, 24, 200), P2: r.Pick(13, 16, 20)}
 		sc.Data.Len = r.Pick(7900, 8100, 16200, 24400, 30000, 65500, 73000) + r.Intn(300)
+		if sc.Data.Kind == "fib" {
+			// the block ends in its rarest symbols (longest codes right before end-of-block);
+			// short blocks too, where a handful of maximal codes is all there is
+			sc.Data.P1, sc.Data.P2 = r.Pick(16, 21, 24, 30), r.Pick(0, 3, 3, 4, 7)
+			if r.Pct(50) {
+				sc.Data.Len = r.Pick(300, 1000, 2600, 4200, 7000, 20000, 30000) + r.Intn(300)
+			}
+		}
 		if r.Pct(20) && sc.Level != -2 {
 			// sparse-file shape: the head length sweeps across the point where the token buffer fills
 			sc.Data.Kind, sc.Data.P1 = "head_run", r.Pick(20000, 70000)
@@ -537,8 +545,14 @@ func (c10) Gen(r *kern.Rng, tier string, idx int) *Trace {
 			sc.Ctor = "level"
 		}
 		sc.Level = r.Pick(-2, -2, 1, 2, -1)
-		sc.Data = scen.DataSpec{Kind: r.PickS("rand", "rand", "text", "alpha", "fib"), Seed: r.Uint64(), P1: r.Pick(3, 16, 24, 200)}
+		sc.Data = scen.DataSpec{Kind: r.PickS("rand", "rand", "text", "alpha", "fib", "geo"), Seed: r.Uint64(), P1: r.Pick(3, 16, 24, 200), P2: r.Pick(13, 16, 20)}
 		sc.Data.Len = r.Pick(60, 7900, 8100, 16200, 30000, 65500) + r.Intn(300)
+		if sc.Data.Kind == "fib" {
+			sc.Data.P1, sc.Data.P2 = r.Pick(16, 21, 24, 30), r.Pick(0, 3, 3, 4, 7)
+			if r.Pct(50) {
+				sc.Data.Len = r.Pick(300, 1000, 2600, 4200, 7000, 20000) + r.Intn(300)
+			}
+		}
 		sc.Ops = []scen.WOp{{K: "w", N: 1 << 30}, {K: "f"}, {K: "c"}}
 		return &Trace{Property: "C10", Family: "W-plain+flush-invariant(length sweep)", W: sc, Sweep: true, Stride: tierLen(tier, 300, 600)}
 	}
